@@ -48,7 +48,7 @@ class GroupHooks(Hooks):
         return NotImplemented
 
     def truth(self, it, term):
-        if isinstance(term, Sym) and term.name in ('signature',):
+        if isinstance(term, Sym) and term.name.startswith('signature'):
             return True
         if isinstance(term, App) and term.op == 'is' and isinstance(term.args[0], Sym) and term.args[1] is None:
             return False
@@ -127,3 +127,49 @@ def run(repo: Repo, chk: Check) -> None:
         chk.ob('R-TABLE', f'pytezos.rpc.kind.validation_passes[{k}]', vp.get(k) == v, 'validation pass', kmi.relpath, {'found': vp.get(k), 'reference': v},
                what=f'{k} is in validation pass {v}; the table says {vp.get(k)}, which selects the wrong watermark')
     chk.minimum('validation pass rows', len(vp), 16)
+
+    # ---- 5 what is signed / hashed is the forging of the CURRENT contents: forge() and hash() are functions of the group as it is when called
+    # (a value remembered from an earlier call - memoised forged bytes, a stored opg_hash - goes stale when the same object is re-filled, extended
+    # or re-signed).  Each is interpreted twice on one object whose contents / signature are replaced in between.
+    chk.set_clause('C23.5')
+
+    class PureHooks(GroupHooks):
+        def inline(self, it, fi):
+            return fi.qualname in (f'{G}.forge', f'{G}.hash', f'{G}.binary_payload')
+
+        def call(self, it, callee, args, kwargs, node):
+            if isinstance(callee, FuncRef) and callee.fi is not None and callee.fi.name == 'forge_operation_group':
+                return App('forged', args[0]['branch'] if isinstance(args[0], dict) else args[0], args[0]['contents'] if isinstance(args[0], dict) else None)
+            if isinstance(callee, App) and callee.op == 'attr' and callee.args[1] == 'hex':
+                return App('hex', callee.args[0])
+            if isinstance(callee, FuncRef) and callee.fi is not None and callee.fi.qualname == f'{G}.forge':
+                return it.call_function(callee, args, kwargs, node, force_inline=True)
+            return super().call(it, callee, args, kwargs, node)
+
+    init = repo.find_method(G, '__init__')
+    fg, hs = repo.find_method(G, 'forge'), repo.find_method(G, 'hash')
+
+    def twice(i, fn, change):
+        # build the object through the real constructor so that every attribute it initialises (caches included) exists
+        o = Obj(G, {})
+        i.call_function(FuncRef(init, o, True), [Sym('context')], {'contents': [Sym('content_1')], 'branch': Sym('branch'), 'signature': Sym('signature_1', 'str'),
+                                                                  'chain_id': Sym('chain_id'), 'protocol': Sym('protocol'), 'opg_hash': None}, None, force_inline=True)
+        o.fields.setdefault('key', Sym('key'))
+        o.fields.setdefault('context', Sym('context'))
+        r1 = i.call_function(FuncRef(fn, o, True), [], {}, None, force_inline=True)
+        change(o)
+        r2 = i.call_function(FuncRef(fn, o, True), [], {}, None, force_inline=True)
+        return vrepr(r1), vrepr(r2)
+
+    for fn, label, change, marker in (
+            (fg, 'forge() after the contents were replaced', lambda o: o.fields.__setitem__('contents', [Sym('content_2')]), ('content_1', 'content_2')),
+            (hs, 'hash() after the group was re-signed', lambda o: o.fields.__setitem__('signature', Sym('signature_2', 'str')), ('signature_1', 'signature_2')),
+            (hs, 'hash() after the contents were replaced', lambda o: o.fields.__setitem__('contents', [Sym('content_2')]), ('content_1', 'content_2'))):
+        it5 = Interp(repo, PureHooks(), max_depth=4)
+        res = it5.run_paths(lambda i, fn=fn, change=change: twice(i, fn, change))
+        rets = [p.value for p in res if p.outcome == 'return']
+        ok = bool(rets) and len(rets) == len(res) and all(marker[0] in a and marker[1] in b and marker[0] not in b for a, b in rets)
+        chk.ob('R-FLOW', fn.qualname, ok, f'{label} reflects the new state', fn.loc,
+               {'first': [a[:120] for a, _ in rets][:1], 'second': [b[:120] for _, b in rets][:1], 'outcomes': [p.outcome for p in res]},
+               what=f'OperationGroup.{fn.name}: {label} still returns a value computed from the earlier state ({[b[:100] for _, b in rets][:1]}): '
+                    'the signature / operation hash no longer belongs to the bytes that are injected')
